@@ -423,6 +423,46 @@ def check(run, repo, world):
         run.floor("members of %s" % qn.split(".")[-1], len(got),
                   len(want) - 2)
 
+    # ---- how the commands of the three sequences reach the unit -----------
+    # a DT8 unit acts on a store command only when it arrives twice, and on
+    # any of these commands only behind ENABLE DEVICE TYPE 8; both are
+    # class attributes the drivers read
+    run.rule("R-DT8-ATTRS", "send-twice flag (IEC 62386-209 table) and "
+             "device type 8 of the DT8 commands the sequences yield")
+    from .. import cmdtable
+    tab = {r["name"]: r for r in cmdtable.load_spec().get(
+        "209 standard dt=8", [])}
+    if not tab:
+        raise AnalysisError("spec/iec62386_tables.txt lost its -209 table")
+    n_attr = 0
+    for qn in (COL + "SetTemporaryColourTemperature", COL + "Activate",
+               COL + "StoreColourTemperatureTcLimit",
+               COL + "QueryColourValue"):
+        c = world.cls(qn)
+        row = tab.get(qn.split(".")[-1])
+        if c is None or row is None:
+            raise AnalysisError("R-DT8-ATTRS: %s missing from %s" % (
+                qn, "the library" if c is None else "the -209 table"))
+        tw = folder.class_attr(c, "sendtwice")
+        dt = folder.class_attr(c, "devicetype")
+        n_attr += 1
+        if row["twice"] is not None:
+            run.ob("R-DT8-ATTRS", qn + "#sendtwice", bool(tw) == row["twice"]
+                   and isinstance(tw, bool),
+                   "%s.sendtwice is %r; the standard's table says %s, so "
+                   "the unit %s" % (
+                       c.name, tw, row["twice"],
+                       "ignores the single transmission" if row["twice"]
+                       else "sees the command twice"),
+                   where(repo.mod(c.mod), c.node),
+                   sample={"rule": "R-DT8-ATTRS", "class": qn,
+                           "sendtwice": repr(tw), "devicetype": repr(dt)})
+        run.ob("R-DT8-ATTRS", qn + "#devicetype", dt == 8,
+               "%s.devicetype is %r: without ENABLE DEVICE TYPE 8 in front "
+               "a colour unit does not act on it" % (c.name, dt),
+               where(repo.mod(c.mod), c.node))
+    run.floor("DT8 sequence command classes", n_attr, 4)
+
     # ---- QueryDT8ColourValue ----------------------------------------------
     m, fn, _ = world.func(MOD + ".QueryDT8ColourValue")
     fn = normalise(fn, world, MOD)
